@@ -58,6 +58,9 @@ class Lock:
         self.f.close()
 
 
+GEN_ERRORS = {}
+
+
 def coq_sources():
     out = []
     for sub in COQ_SUBDIRS:
@@ -80,9 +83,20 @@ def grep_gate():
     return hits
 
 
-def build(full=False, timeout=1500):
+class _NoLock:
+    def __enter__(self):
+        return self
+
+    def __exit__(self, *a):
+        return False
+
+
+def build(full=False, timeout=1500, locked=False):
     """(Re)build all .vo files. Returns (ok, log)."""
-    with Lock():
+    with (_NoLock() if locked else Lock()):
+        global GEN_ERRORS
+        import py2v
+        GEN_ERRORS = {k: v for k, v in py2v.regenerate().items() if v}
         srcs = coq_sources()
         proj = "-Q . PW\n" + "\n".join(srcs) + "\n"
         pfile = os.path.join(COQ, "_CoqProject")
@@ -100,7 +114,7 @@ def build(full=False, timeout=1500):
         return rc == 0, out
 
 
-def compile_props(prop):
+def compile_props(prop, locked=False):
     """Compile props/<prop>.v afresh; returns dict with theorem names,
     assumptions report and success flag."""
     src = os.path.join(COQ, "props", prop + ".v")
@@ -115,7 +129,7 @@ def compile_props(prop):
                                  text_nc, flags=re.M)
     printed = re.findall(r"Print Assumptions\s+(\w+)", text_nc)
     missing = [t for t in res["theorems"] if t not in printed]
-    with Lock():
+    with (_NoLock() if locked else Lock()):
         rc, out = sh(["coqc", "-Q", ".", "PW", "props/%s.v" % prop], 600,
                      cwd=COQ)
     res["log"] = out[-4000:]
@@ -337,8 +351,9 @@ class Ctx:
     # -- obligations
     def check_obligations(self):
         gate = grep_gate()
-        ok, log = build()
-        obl = compile_props(self.prop)
+        with Lock():    # generated files, .vo and the props file as one unit
+            ok, log = build(locked=True)
+            obl = compile_props(self.prop, locked=True)
         self.obl = obl
         if gate:
             obl["ok"] = False
@@ -349,7 +364,8 @@ class Ctx:
             self.notes.append("make reported errors: %s" % log[-1500:])
         if not obl["ok"]:
             self.unproved("theorems of coq/props/%s.v" % self.prop,
-                          {"log": obl["log"][-3000:],
+                          {"translator": GEN_ERRORS,
+                           "log": obl["log"][-3000:],
                            "theorems": obl["theorems"],
                            "closed": obl["closed"], "axioms": obl["axioms"]})
         return obl["ok"]
